@@ -159,8 +159,11 @@ class Run:
             "engine": self.engine,
             "repo": REPO,
         }
-        os.makedirs(os.path.join(VERIF, "evidence"), exist_ok=True)
-        with open(os.path.join(VERIF, "evidence", f"{self.prop}.json"), "w") as f:
+        # evidence/ describes /repo itself; a run against another checkout (JASM_REPO, used for seeded changes) keeps its
+        # evidence apart (git-ignored) so that it can never be committed by mistake
+        evdir = os.path.join(VERIF, "evidence") if os.path.realpath(REPO) == "/repo" else os.path.join(VERIF, "replays", "_evidence_other_checkout")
+        os.makedirs(evdir, exist_ok=True)
+        with open(os.path.join(evdir, f"{self.prop}.json"), "w") as f:
             json.dump(ev, f, indent=1, default=str)
         status = "VIOLATED" if self.violations else ("HARNESS-ERROR" if self.harness_errors else "held")
         print(f"[{self.prop}] {status}: {json.dumps(self.counts)} wall={wall:.1f}s solver={self.solver_s:.1f}s")
